@@ -42,8 +42,6 @@ theorem resp_set (v : Bytes) (keep : Bool) : Resp now (fun s => Api.set s now k 
   resp_write (fun s => set_eq s now k v keep)
 theorem resp_setOpt (v : DsStr.S) (keep : Bool) : Resp now (fun s => Api.setOpt s now k v keep) :=
   resp_write (fun s => setOpt_eq s now k v keep)
-theorem resp_getSet (v : Bytes) : Resp now (fun s => Api.getSet s now k v) :=
-  resp_write (fun s => getSet_eq s now k v)
 theorem resp_setXX (v : Bytes) (keep : Bool) : Resp now (fun s => Api.setXX s now k v keep) :=
   resp_write (fun s => setXX_eq s now k v keep)
 theorem resp_setEX (v : Bytes) (sec : Int) : Resp now (fun s => Api.setEX s now k v sec) :=
@@ -313,6 +311,30 @@ theorem resp_setNX (now : Int) (k value : Bytes) (keep : Bool) :
         cases keep with
         | true => exact setVal_good g2 k _ h2.visible
         | false => exact setVal_good (setExp_good g2 k 0 h2) k _ (hot_setExp_zero h2).visible
+
+/-! ### GETSET (missing key: created as in SETNX; present key: a `writeCmd`) -/
+
+theorem resp_getSet (now : Int) (k v : Bytes) : Resp now (fun s => Api.getSet s now k v) := by
+  intro s s' g
+  show RSim now (Api.getSet s now k v) (Api.getSet s' now k v)
+  rw [getSet_eq, getSet_eq]
+  obtain ⟨⟨e, g1⟩, _⟩ := writeKey_good g k none
+  rw [← e]
+  cases hok : (writeKey s now k none).2 with
+  | true =>
+    simp only [Bool.not_true, Bool.false_eq_true, if_false]
+    exact writeCmd_good g _ _ _ k
+  | false =>
+    simp only [Bool.not_false, if_true]
+    refine ⟨rfl, ?_⟩
+    unfold getSetNew
+    simp only
+    apply emit_good
+    apply signal_good
+    have g2 := newKeyWith_good g1 k none none (.str [])
+    have h2 := hot_newKeyWith now (writeKey s now k none).1 k none (.str [])
+    have g3 := setVal_good g2 k (.str v) h2.visible
+    exact setExp_good g3 k 0 (setVal_hot k (.str v) h2.visible)
 
 /-! ### RENAME, RENAMENX -/
 
